@@ -1023,17 +1023,25 @@ func (d *decoderState) consumeObject(flags *jsonwire.ValueFlags, pos, depth int)
 		if !d.Flags.Get(jsonflags.AllowDuplicateNames) && !names.insertQuoted(quotedName, flags2.IsVerbatim()) {
 			return pos - n, wrapWithObjectName(ErrDuplicateName, quotedName)
 		}
+		// Fetching more data may move or reallocate d.buf, which invalidates
+		// quotedName. Remember where the name is relative to the start of
+		// the stream and only re-slice it out of d.buf when reporting an error.
+		nameAbsPos, nameLen := d.baseOffset+int64(pos-n), n
+		quotedNameAt := func() []byte {
+			i := int(nameAbsPos - d.baseOffset)
+			return d.buf[i : i+nameLen]
+		}
 
 		// Handle after name.
 		pos += jsonwire.ConsumeWhitespace(d.buf[pos:])
 		if d.needMore(pos) {
 			if pos, err = d.consumeWhitespace(pos); err != nil {
-				return pos, wrapWithObjectName(err, quotedName)
+				return pos, wrapWithObjectName(err, quotedNameAt())
 			}
 		}
 		if d.buf[pos] != ':' {
 			err := jsonwire.NewInvalidCharacterError(d.buf[pos:], "after object name (expecting ':')")
-			return pos, wrapWithObjectName(err, quotedName)
+			return pos, wrapWithObjectName(err, quotedNameAt())
 		}
 		pos++
 
@@ -1041,12 +1049,12 @@ func (d *decoderState) consumeObject(flags *jsonwire.ValueFlags, pos, depth int)
 		pos += jsonwire.ConsumeWhitespace(d.buf[pos:])
 		if d.needMore(pos) {
 			if pos, err = d.consumeWhitespace(pos); err != nil {
-				return pos, wrapWithObjectName(err, quotedName)
+				return pos, wrapWithObjectName(err, quotedNameAt())
 			}
 		}
 		pos, err = d.consumeValue(flags, pos, depth)
 		if err != nil {
-			return pos, wrapWithObjectName(err, quotedName)
+			return pos, wrapWithObjectName(err, quotedNameAt())
 		}
 
 		// Handle after value.
